@@ -1262,11 +1262,17 @@ class VFile:
         return offset
 
 
-def make_hostile_server(tree, outside: bytes):
+def make_hostile_server(tree, outside: bytes, extreme: bool = False):
     """SFTPServer whose answers come from a generated tree; path strings the
-    client asks for are looked up exactly as the client composed them"""
+    client asks for are looked up exactly as the client composed them.
+    extreme: times and ids at the top of their wire range (what preserve=True
+    then tries to apply locally)"""
 
-    A = asyncssh.SFTPAttrs
+    def A(**kw):
+        if extreme:
+            kw.update(atime=2 ** 64 - 1, mtime=2 ** 64 - 1, uid=2 ** 32 - 2,
+                      gid=2 ** 32 - 2)
+        return asyncssh.SFTPAttrs(**kw)
 
     def subst(b: bytes) -> bytes:
         return b.replace(b'$OUT', outside)
@@ -1424,8 +1430,11 @@ def run_sftp_get(case) -> CaseResult:
 
     try:
         hostile = tree_labels(case['tree'], labels)
-        pair = Pair({'sftp_factory': make_hostile_server(case['tree'],
-                                                         box.outside),
+        if case.get('extreme'):
+            labels.add('extreme-attrs')
+
+        pair = Pair({'sftp_factory': make_hostile_server(
+            case['tree'], box.outside, bool(case.get('extreme'))),
                      'sftp_version': case['v']})
         pair.handshake()
         h = pair.h
@@ -1556,6 +1565,7 @@ def sftp_get_strategy(tier: str):
                 'dest': draw(pick(['abs', 'abs', 'rel', 'new',
                                               'slash'])),
                 'preserve': draw(st.booleans()),
+                'extreme': draw(pick([False, False, True])),
                 'follow': draw(pick([False, False, True])),
                 'errh': draw(pick([True, True, False])),
                 'tree': tree}
